@@ -25,6 +25,7 @@ use std::panic::{catch_unwind, AssertUnwindSafe};
 use std::rc::Rc;
 use vharness::*;
 
+mod oracle_c05;
 mod oracle_c06;
 mod step;
 use step::Step;
@@ -719,6 +720,7 @@ fn main() {
                         dict_pre: &dict_pre, dict_post: &dict_post, history: &history, seed, sid,
                     };
                     // the properties, evaluated directly on the real editor (one module per property)
+                    oracle_c05::check(&mut out, &step);
                     oracle_c06::check(&mut out, &step);
                     out.rec(&format!(
                         "ed {} | {} | {} | {} {} => ok | {} | {} | {}",
